@@ -563,6 +563,17 @@ pub fn install() {
     lean_string::verif_hooks::install(&HOOKS);
 }
 
+/// overwrites the reference count of a heap handle's buffer (no-op when not on the heap or built without hooks)
+pub fn set_refcount(s: &lean_string::LeanString, count: usize) {
+    #[cfg(feature = "hooks")]
+    if s.verif_refcount().is_some() {
+        // SAFETY: `s` is a live heap handle; callers restore a count matching the live handles before dropping them
+        unsafe { lean_string::verif_hooks::set_refcount_of_data_ptr(s.as_ptr(), count) }
+    }
+    #[cfg(not(feature = "hooks"))]
+    let _ = (s, count);
+}
+
 /// reference count of a handle (None when not on the heap, or when built without hooks)
 pub fn refcount_of(s: &lean_string::LeanString) -> Option<usize> {
     #[cfg(feature = "hooks")]
